@@ -100,6 +100,8 @@ hc_prop("C12",
     lambda tier: [hc("faulty", 2000, 80000, tier, "C12"),
                   hc("rate", 600, 20000, tier, "C12"),
                   hc("ideal", 400, 10000, tier, "C12"),
+                  hc("fault-then-fair", 1200, 40000, tier, "C12"),
+                  hc("blackout", 1000, 30000, tier, "C12"),
                   hc("frag", 500, 20000, tier, "C12", frag_packets=T(tier, 40, 120)),
                   dict(family="frag-len", n=T(tier, 400, 20000), params={"prop": "C12", "first": 5795}, scalable=False),
                   dict(family="solo-api", n=T(tier, 300, 10000), params={"batch": 10, "ops": 400}),
@@ -171,15 +173,16 @@ PROPS["C14"] = dict(
     runs=lambda tier: [dict(family="srcomp", n=T(tier, 400, 20000), params={"batch": 200, "steps": 60}),
                        hc("rate", 800, 30000, tier, "C14"),
                        hc("blackout", 300, 10000, tier, "C14"),
+                       hc("faulty", 800, 30000, tier, "C14"),
                        dict(family="ep-ideal", n=T(tier, 100, 4000), params={})],
     rule=("ep-ideal: real Client and Server whose four rate limits are drawn independently (20 kB/s..2^64-1), allowed rate of both senders sampled after every step against min(local send limit, peer receive limit), capped at 2^32-1. srcomp: the real SendRateComp driven directly with random feedback histories (RTT sample 0..10^6 ms, receive rate 0..2^32-1, loss rate 0..1 "
           "incl. 1e-9, rate-limited flag, gaps 0 ms..hours, ceilings 1472..2^32-1), stepped in lock-step with an independent evaluation of the RFC 5348 "
           "bounds; non-trivial = history reached the throughput-equation phase and had >= 1 no-feedback reduction. rate/blackout: the live controller "
-          "inside hcsim sampled after every step against ceiling and floor. distinct = hash(ceiling, feedback count, reductions, final rate) / scenario signature."),
+          "inside hcsim sampled after every step against ceiling and floor; rate/blackout/faulty (acks lost, duplicated and REORDERED): after every sender step that consumed feedback, rtt_s() against a reference 0.9/0.1 moving average whose sample is the time since the newest data frame first acknowledged since the previous step was emitted (by the clock reading the sender stamps on it: that of its last step()), computed from wire times and the ack groups the boundary model accepted (`live-rtt-estimate`). distinct = hash(ceiling, feedback count, reductions, final rate) / scenario signature."),
     level_text="Lock-step reference oracle: after every step X <= ceiling, X >= 23; after the first loss report X <= max(T(R,p),23); slow start at most doubles or uses 4380/R; no increase without feedback, an expiry at most halves; rtt_s is the 0.9/0.1 average; the loss history is initialised within 5 % of the target when the target is reachable. Endpoint level: the ceiling the controller works with is the one the two configurations imply.",
     level_note="Trusted: the ~40-line f64 evaluation of the RFC formulas in harness/src/rate14.rs. Timer expiry instants are not modelled (bounds only).",
     technique="lock-step reference oracle on the real rate controller",
-    floor=dict(quick=2000, thorough=50000), require_counters=["srcomp_steps", "slow_start_exits", "eqn_phase_feedbacks", "nofeedback_reductions", "initial_p_checked"],
+    floor=dict(quick=2000, thorough=50000), require_counters=["srcomp_steps", "slow_start_exits", "eqn_phase_feedbacks", "nofeedback_reductions", "initial_p_checked", "live_rtt_samples_checked"],
     assumptions=["feedback histories are arbitrary, not restricted to those a frame queue can produce"])
 
 PROPS["C03"] = dict(
@@ -312,8 +315,9 @@ ep_prop("C08",
 
 ep_prop("C09",
     lambda tier: [ep("disconnect", 2500, 80000, tier, "C09"),
-                  ep("lifecycle", 800, 30000, tier, "C09")],
-    "disconnect: one side queues 0..500 packets of all modes (<= 20 kB) and calls disconnect(), with loss / duplication / delay of data, acks, Disconnect and DisconnectAck, blackouts (one or both ways) right after the call, both sides calling in 15 % of the cases; 30 % short sessions (call 50..1900 ms in), 30 % with the first 1..3 DisconnectAcks lost, 35 % ending with zero-length Reliable markers. non-trivial: a flush obligation (Reliable packet queued before the call) was checked, or a Disconnect exchange took place with queued data.",
+                  ep("lifecycle", 800, 30000, tier, "C09"),
+                  ep("timers", 1500, 50000, tier, "C09")],
+    "timers (see C10; here judged by the C09 oracles): disconnect attempts 0 ms..10 s after Connect whose first 0..11 or all requests are lost, active timeouts of 1..120 s, step cadences up to 1 s, so that an answer can arrive in the very gap before a deadline. disconnect: one side queues 0..500 packets of all modes (<= 20 kB) and calls disconnect(), with loss / duplication / delay of data, acks, Disconnect and DisconnectAck, blackouts (one or both ways) right after the call, both sides calling in 15 % of the cases; 30 % short sessions (call 50..1900 ms in), 30 % with the first 1..3 DisconnectAcks lost, 35 % ending with zero-length Reliable markers. non-trivial: a flush obligation (Reliable packet queued before the call) was checked, or a Disconnect exchange took place with queued data.",
     "History check: the peer's Disconnect event comes after the Receive of every Reliable packet submitted before disconnect() (void if the peer disconnected / dropped first, or the caller escalated to disconnect_now / drop); both ends reach a terminal event within 22 s (or their active timeout) + 12 step intervals of the first Disconnect frame (an endpoint whose own request went out later gets the budget of its own request); disconnect_now() puts the request on the wire by the caller's next step; a passively closed peer answers every repeated request delivered to it in the 18 s after its Disconnect event (so a reachable peer never leaves the caller to time out); an endpoint whose own request is on the wire and which then reads a Disconnect or DisconnectAck from its peer ends with Disconnect, never with Error(Timeout) (`timeout-although-peer-answered`); nothing after the terminal event (C08 automaton).",
     "history oracle on event order and virtual-time budget",
     dict(quick=800, thorough=20000), require=["c09_flush_obligations_checked", "c09_disconnect_exchanges", "c09_disconnect_now_checked", "c09_repeated_requests_to_lingering_peer", "c09_zero_length_obligations", "c09_disconnect_attempt_timeouts_checked"])
@@ -338,9 +342,9 @@ ep_prop("C18",
                   ep("handshake", 200, 10000, tier, "C18"),
                   ep("limits", 200, 10000, tier, "C18")],
     "amplify: 1..30 spoofable addresses each send 1..25 datagrams over 28 s: valid SYNs (same and fresh nonce), wrong-version and configuration-refused SYNs, SYN-typed datagrams of every length 5..1471 with a valid CRC, oversized datagrams, stray frames of every other type; the shortest datagrams there are (0..8 bytes of zeros / ones / the CRC of nothing), flooders (a valid SYN then 50..400 small frames of one type, also numbered from the SYN's own nonce); default and full servers, one in five configured with an active timeout of 2 min..1 h and watched for 10 min (otherwise 55 s, so every SYN-ACK resend happens); the server application greets new connections with 0..8 kB; in a third of the scenarios (and every long one) the server application stalls 1..4 times for 2..23 s, so that timers come due late and together. non-trivial: the server sent >= 1 byte to a spoofable address.",
-    "Per-address byte counters kept by the virtual network, checked after every server call: for an address from which no ACK echoing a nonce the server sent it has been delivered (verification is taken from the wire, not from the server's own Connect), bytes sent to it stay below bytes received from it; an address that only sent undersized SYN-typed datagrams receives nothing.",
+    "An address has completed the handshake when an ACK echoing a nonce the server sent it has been delivered AND the server has accepted it (Connect): an address whose ACK is refused (server full at activation) stays unverified; on-path flooders answer the SYN-ACK with the right nonce 100..3000 times, also at servers that filled up between their SYN and their ACK. Per-address byte counters kept by the virtual network, checked after every server call: for an address from which no ACK echoing a nonce the server sent it has been delivered (verification is taken from the wire, not from the server's own Connect), bytes sent to it stay below bytes received from it; an address that only sent undersized SYN-typed datagrams receives nothing.",
     "byte-accounting monitor at the virtual socket",
-    dict(quick=1500, thorough=30000), require=["amp_undersized_syn", "amp_valid_syn_same_nonce", "c18_addresses_that_got_a_reply", "c18_undersized_only_addresses_checked"])
+    dict(quick=1500, thorough=30000), require=["amp_undersized_syn", "amp_valid_syn_same_nonce", "c18_addresses_that_got_a_reply", "c18_undersized_only_addresses_checked", "amp_valid_nonce_acks", "amp_servers_filled_after_handshakes_were_admitted"])
 
 # endpoint-level workloads join C03 and C11
 _c03_runs = PROPS["C03"]["runs"]
